@@ -121,38 +121,47 @@ def prevOf (g : GameRec) : R (Pos × Move) :=
     | [] => .error (.panic "Friendly.GetMove: f.g.Moves[len-1]")
   | _ => .error (.panic "Friendly.GetMove: f.g.Positions[len-2]")
 
+/-- first block of `Friendly.GetMove`:
+`if f.fpa != nil { if p.MoveNumber() > 0 { prevP, prevM := …; if err := f.fpa.LegalMove(prevP, prevM); err != nil { … } } }`.
+Returns the rule with the squares `LegalMove` remembered and, when the move was rejected, the text of the error. -/
+def fpaCheck (fpa : Option (Variant × Rule)) (g : GameRec) (p : Pos) : R (Option (Variant × Rule) × Option Msg) :=
+  match fpa with
+  | none => .ok (none, none)
+  | some (var, r) =>
+    if p.move > 0 then do
+      let (prevP, prevM) ← prevOf g
+      let (r', ok) ← legalMove var r (viewOfPos prevP) prevM
+      if ok then .ok (some (var, r'), none)
+      else do
+        let msg ← errMsg var prevP.move
+        .ok (some (var, r'), some msg)
+    else .ok (some (var, r), none)
+
+/-- third block: `if f.fpa != nil { m, ok := f.fpa.GetMove(p); if ok { return m } }` -/
+def fpaScript (fpa : Option (Variant × Rule)) (p : Pos) : R (Option Move) :=
+  match fpa with
+  | none => .ok none
+  | some (var, r) => getMove var r (viewOfPos p)
+
 /-- `(*Friendly).GetMove(ctx, p, mine, theirs)`.  `fpa`: `f.fpa` (`none` = `nil`) with the rule's remembered
 squares; returns the rule's squares afterwards (`LegalMove` writes them) and the branch taken.  An error is a
 panic of the Go code (index out of range in the record, or a panic inside the rule's own code). -/
 def friendlyGetMove (fpa : Option (Variant × Rule)) (g : GameRec) (p : Pos) (o : CheckOracle) :
     R (Option (Variant × Rule) × Action) := do
-  -- if f.fpa != nil { if p.MoveNumber() > 0 { ... LegalMove(prevP, prevM) ... } }
-  let (fpa, rejected) ← (match fpa with
-    | none => pure (none, none)
-    | some (var, r) =>
-      if p.move > 0 then do
-        let (prevP, prevM) ← prevOf g
-        let (r', ok) ← legalMove var r (viewOfPos prevP) prevM
-        if ok then pure (some (var, r'), none)
-        else do
-          let msg ← errMsg var prevP.move
-          pure (some (var, r'), some msg)
-      else pure (some (var, r), none) : R (Option (Variant × Rule) × Option Msg))
+  let (fpa, rejected) ← fpaCheck fpa g p
   match rejected with
-  | some msg => .ok (fpa, .resign msg)
+  | some msg =>
+    -- f.client.SendCommand(f.g.GameStr, "Resign"); f.client.Tell(f.g.Opponent, err.Error()); <-ctx.Done(); return tak.Move{}
+    .ok (fpa, .resign msg)
   | none =>
   -- if p.ToMove() != f.g.Color { return tak.Move{} }
   if p.toMove ≠ g.color then .ok (fpa, .noMove) else do
-  -- if f.fpa != nil { m, ok := f.fpa.GetMove(p); if ok { return m } }
-  let scripted ← (match fpa with
-    | none => pure none
-    | some (var, r) => getMove var r (viewOfPos p) : R (Option Move))
-  match scripted with
+  match ← fpaScript fpa p with
   | some m => .ok (fpa, .move m)
   | none =>
-  -- deadline: undoTimeout or minThink; search under maxThink
-  let w ← waitUndo g o
-  .ok (fpa, .think (some Facts.maxThink) (some (if w then .undo else .minThink)))
+    -- deadline := time.After(undoTimeout | minThink); ctx with deadline now+maxThink; m := f.ai.GetMove(ctx, p); wait; return m
+    let w ← waitUndo g o
+    .ok (fpa, .think (some Facts.maxThink) (some (if w then .undo else .minThink)))
 
 /-- `(*Friendly).Config(size)` -/
 def friendlyConfig (fpa : Bool) (size : Nat) : Cfg :=
